@@ -18,11 +18,16 @@ EXTENDS History, TraceBase
 \*    20 tmp := f(x), tmp{x}   21 tmp := f(y, z=0), tmp{y}   22 tmp := f(x), tmp{y}
 \* - the same function name and signature conv(n: int) under TWO validator objects (coercing / strict):
 \*    23 lax.conv("5") 24 strict.conv("5") 25 lax.conv(5) 26 strict.conv(5)
+\* - a method that consumes its (nested) argument in place: 27 drain([[1,2,3]]) - the same text again gets the same answer
+\* - parameterless calls under a non-coercing pydantic validator: 28 pv0.whoami() (context by name) 29 pv0.ping()
+\* - two functions behind ONE ordinary decorator (one shared code object, different signatures): 30 add(1,2) 31 neg(5)
+\* - a context-less class based view that keeps scratch data on itself: 32 scratch.note('a') 33 scratch.note('x')
 TwinOutcome == <<"int", "str", "invalid", "invalid", "int", "str", "invalid", "invalid",
                  "ok", "ok", "invalid", "invalid", "ctx", "pong", "ctx2", "invalid", "a_and_5", "a_and_ctx", "a_and_none",
-                 "ok", "ok", "invalid", "int", "invalid", "int", "int">>
+                 "ok", "ok", "invalid", "int", "invalid", "int", "int",
+                 "123", "ctx", "pong", "3", "-5", "noted:a", "noted:x">>
 TraceInit == tid \in 1..NTraces /\ l = 1 /\ InitWith("typed")
-TCall == IsEvent("Call") /\ E.c \in 1..26 /\ Serve(E.c) /\ E.outcome = TwinOutcome[E.c]
+TCall == IsEvent("Call") /\ E.c \in 1..33 /\ Serve(E.c) /\ E.outcome = TwinOutcome[E.c]
 TraceNext == TCall
 TraceConstraint == NothingRetained /\ Progress
 =============================================================================
